@@ -144,6 +144,10 @@ pub fn test_ignore(c: &IgnoreCase, ctx: &mut CaseCtx) -> Result<(), String> {
     let json = serde_json::to_string(&ignored).map_err(|e| e.to_string())?;
     let restored: IgnoredLints = serde_json::from_str(&json).map_err(|e| format!("import failed: {e}"))?;
     check_filter(&restored, "after JSON export/import")?;
+    // the way the integrations import: append the deserialised list to a fresh instance
+    let mut appended = IgnoredLints::new();
+    appended.append(serde_json::from_str(&json).map_err(|e| format!("import failed: {e}"))?);
+    check_filter(&appended, "after JSON export and append to a fresh list")?;
     let json2 = serde_json::to_string(&restored).map_err(|e| e.to_string())?;
     let mut a: Vec<u64> = serde_json::from_str::<Value>(&json)
         .ok()
